@@ -11,6 +11,7 @@ DOC = {
                    'a final path line without its terminator is rejected (R3); the group iterator stops at the first error and the error is surfaced to the caller (R4). '
                    'The command line codec itself is C17.',
     'rules': {
+        'C10.M': __import__('fcverif.rules.common', fromlist=['MANDATORY_TEXT']).MANDATORY_TEXT,
         'C10.R1': 'codec pairing: path/base dir to_escaped_string <-> from_escaped_string; command arg::join <-> arg::split; timestamp format(TIMESTAMP_FMT) <-> parse_from_str(TIMESTAMP_FMT); hash Display <-> FromStr; serde impls of Path/Arg use the same pair',
         'C10.R2': 'framing: the decoder input for paths and the base dir is not derived from str::trim / trim_start / trim_end (Unicode white space)',
         'C10.R3': 'read_paths accepts a path line only if it ends with the line terminator',
@@ -55,6 +56,8 @@ def run(ctx):
     r2(ctx, lib, rh, rp)
     r3(ctx, lib, rp)
     r4(ctx, lib)
+    from .common import run_mandatory
+    run_mandatory(ctx, 'C10')
 
 
 def writer_fields(lib, wt):
